@@ -262,6 +262,8 @@ var c11RefSels = map[string][]refmodel.Seg{
 	".l[010]":   {{Kind: "field", Field: "l"}, {Kind: "index", Index: 10, Spell: "010"}},
 	".l[:010]":  {{Kind: "field", Field: "l"}, {Kind: "slice", Hi: ip(10), Spell: ":010"}},
 	".l[-011:]": {{Kind: "field", Field: "l"}, {Kind: "slice", Lo: ip(-11), Spell: "-011:"}},
+	// two slices in a row, each with its own bounds: the second element, as a one-element list
+	".l[1:][:1]": {{Kind: "field", Field: "l"}, {Kind: "slice", Lo: ip(1), Spell: "1:"}, {Kind: "slice", Hi: ip(1), Spell: ":1"}},
 }
 
 var errRefSel = fmt.Errorf("reference: the selector does not resolve")
@@ -508,7 +510,7 @@ func (c *c11Case) Weight() int {
 // a wildcard followed by a long literal that keeps almost matching inside a long run
 var c11LongPat = "*" + strings.Repeat("0", 40) + "7"
 
-var c11Sels = []string{".a", ".b", ".m?", ".m", ".l", ".", ".l[-1:]", ".l[010]", ".l[:010]", ".l[-011:]"}
+var c11Sels = []string{".a", ".b", ".m?", ".m", ".l", ".", ".l[-1:]", ".l[010]", ".l[:010]", ".l[-011:]", ".l[1:][:1]"}
 
 func c11Atoms() []St {
 	var r []St
@@ -988,7 +990,7 @@ func C11() *engine.Check {
 	return &engine.Check{
 		Property: "C11",
 		Level:    "model_checking",
-		Subs:     []*engine.Sub{c11AtomSub(), c11SharedSub(), c11WideSub(), c11StructSub(), c11ConcatSub(), c11ConcSub(), concRaceSub("C11")},
+		Subs:     []*engine.Sub{c11AtomSub(), c11SharedSub(), c11WideSub(), c11StructSub(), c11ConcatSub(), selCollideSub("C11"), c11ConcSub(), concRaceSub("C11")},
 		Assumptions: []string{
 			"'every selector resolves' is decided with the real selector.Select per statement (per element under quantifiers); selector semantics are C12's business",
 			"don't-care: infinite operands of ordering operators, == on NaN, the empty or, quantifiers over non-lists",
